@@ -116,7 +116,7 @@ static const long kCounts[] = {0, 1, 2, 255, 256, 257, 32768, 2147483647L};
 // One structure-aware mutation of a well-formed Spec. Returns a label.
 inline std::string mutate_spec(Spec* sp, sup::Rng& r) {
   Block& b = sp->v2;
-  switch (r.range(0, 19)) {
+  switch (r.range(0, 20)) {
     case 0: {  // declared count without resizing the body
       long* f[] = {&b.d_timecnt, &b.d_typecnt, &b.d_charcnt, &b.d_leapcnt, &b.d_isstd, &b.d_isut};
       long actual[] = {(long)b.times.size(), (long)b.types.size(), (long)b.chars.size(), 0, (long)b.isstd.size(), (long)b.isut.size()};
@@ -192,6 +192,19 @@ inline std::string mutate_spec(Spec* sp, sup::Rng& r) {
       sp->footer = r.chance(0.5) ? g.sentence() : g.mutate(g.sentence());
       if (sp->version == 0) sp->version = '2';
       return "footer-grammar";
+    }
+    case 19: {  // footer whose two rule transitions are hours apart (closer than the size of the change)
+      int d = (int)r.range(1, 365);
+      int save_h = (int)r.range(1, 3);
+      char b[128];
+      snprintf(b, sizeof b, "AAA%dBBB%d,J%d/%d,J%d/%d", (int)r.range(-3, 3) + 5, (int)r.range(-3, 3) + 5 - save_h, d, (int)r.range(0, 3), d, (int)r.range(1, 6));
+      sp->footer = b;
+      if (sp->version == 0) sp->version = '2';
+      // make the body consistent with a standard-time start so that the footer is what decides the load
+      if (!sp->v2.types.empty()) {
+        sp->v2.types[0].dst = 0;
+      }
+      return "footer-close-rules";
     }
     case 9: {  // footer framing
       switch (r.range(0, 4)) {
